@@ -149,7 +149,7 @@ def disc_pattern(kind, n, signed, bits):
     if kind == 'hard':
         return ['1 << 2', None, '0x10 | 3', None, '100 / 3', None, '(7 & 3) << 1', None][:n]
     if kind == 'hard2':
-        return ['2', None, '1 << 4', None, None, '250 % 100', None, None][:n]
+        return ['2', None, '1 << 4', None, None, '120 % 100', None, None][:n]
     if kind == 'extreme':
         mx = (1 << (bits - 1)) - 1 if signed else (1 << bits) - 1
         mn = -(1 << (bits - 1)) if signed else 0
@@ -463,6 +463,8 @@ def corpus_print(tier, seed, derives=PRINTERS, with_forward=True, with_prefix=Tr
       [V('Q0', ser=['darkest', 'd', 'dark', 'da']), V('Q1', ser=['da', 'darkest', 'd', 'dark']), V('Q2', 'tuple', ['u8'], ser=['dark', 'da', 'd', 'darkest'])])
     # escaped braces are part of a fixed name (no placeholder), for every variant kind
     A([V('Unit', ts='unit{{}}'), V('Tup', 'tuple', ['u8'], ts='tu{{p}}'), V('Named', 'named', ['u8'], ts='block{{}}'), V('Ser', 'named', ['i32'], ser=['a{{b}}c', 'x'])])
+    # an explicit empty name is still an explicit name
+    A([V('NoUnit', ts=''), V('OnlyEmptySer', 'tuple', ['u8'], ser=['']), V('Plain')], serialize_all='snake_case')
     A([V('RedFox', 'tuple', ['u8']), V('BlueSky', 'named', ['i32', 'bool']), V('HTTPPort'), V('X', ser=['explicit-Stays'])], serialize_all='kebab-case',
       **({'prefix': 'p/'} if with_prefix else {}))
     if with_prefix:
@@ -806,6 +808,7 @@ def corpus_case(tier, seed):
                 vs.append(V(w))
             if not vs:
                 break
+            vs.append(V('EmptyName', ts=''))
             vs.append(V('KeepMe', ser=['KeepMe']))
             vs.append(V('StayPut', ts='StayPut'))
             vs.append(V('ExplicitSer', ser=['explicit-Stays']))
